@@ -2,7 +2,7 @@
 
 BUBBLE = ("virtual time via testing/synctest on the pre-installed go1.26.8; the staged go.mod "
           "sets godebug asynctimerchan=0 (required by synctest), language version stays go 1.22")
-FAKES = "system.Conn / system.State / DialFunc / address, route and clock sources are in-memory fakes"
+FAKES = "system.Conn / system.State / DialFunc / address, route and clock sources are in-memory fakes (the fake connection attaches an interface zone to every source address and strips it from destinations, as ndp.Conn does)"
 STAGED = ("harness runs as in-package tests in a throw-away copy of /repo's working tree; the "
           "repository's own _test.go files are not part of that build")
 
@@ -592,3 +592,4 @@ PROPS["C03"]["rule"] += " pref64 CIDR strings cover every length 0..128 of two I
 PROPS["C12"]["rule"] += " One received RA in three may list a prefix or route in several options (another router may; our configuration cannot): an inconsistency of any copy must be reported; labels are then compared as sets. Field values also cover 1, limit-1, 65535 and 2^32-1 style extremes and any hop limit."
 PROPS["C17"]["rule"] += " Overlap probes run in two rounds (three requests 0.7 ms apart, two requests 1.4 ms apart) and include the debug API: each overlapping answer must equal the answer of the request that ran alone (API bodies only when no advertised value depends on time); the quiet window covers every recorded Prepare instant and lasts until the slowest overlapping request has finished. Whole-process: two real API requests 3 ms apart."
 PROPS["C03"]["rule"] += " Thorough tier: 150 s of native coverage-guided fuzzing of raw TOML bytes (FuzzVerif_C03) with the same round-trip oracle on whatever config.Parse accepts within the statement's domain."
+PROPS["C07"]["rule"] += " Whole-process: a solicitation from :: (handed over as ::%<interface>) must be answered by a scheduled multicast RA before the second scrape, and no RA may be sent to ::."
